@@ -119,8 +119,12 @@ var opNames = []string{
 	"src", "cat", "id", "cat2", "pick", "tuple", "nested", "rec", "field", "method", "iface", "ifaceval",
 	"global", "globalfn", "cloread", "cloparam", "clowrite", "funcval", "apply", "map", "slice", "chan",
 	"ptrparam", "phi", "loop", "constarg", "deferres", "sinkhelper", "cloretclo", "field2", "retstruct",
-	"sinkhelper2", "sinkclosure", "globalfn2",
+	"sinkhelper2", "sinkclosure", "globalfn2", "boundmethod",
 }
+
+// opt-in operations (C03_OPS): shapes that hit a recorded finding on the unchanged tree.
+//   boundsink: backtrace point in a method reached through two method values -> F15b
+var optInOps = []string{"boundsink"}
 
 func (c *caseGen) op(name string) {
 	p := c.p
@@ -267,6 +271,29 @@ func (c *caseGen) op(name string) {
 		c.emit("%s(%s)", h, a)
 		c.emit("%s := %s", v, a)
 		c.root[v] = c.rootOf(a)
+		p.sinkOps[p.nsink] = append([]string(nil), c.ops...)
+	case "boundmethod":
+		// method value: a MakeClosure of (*S).get$bound; all such closures in the package share one
+		// function, so its free variable has several referring MakeClosure sites
+		sv := c.fresh()
+		f := c.fresh()
+		c.emit("%s := &S{f: %s}", sv, c.pick())
+		c.emit("%s := %s.get", f, sv)
+		c.emit("%s := %s()", v, f)
+	case "boundsink":
+		// the backtrace point sits in a method reached through two method values (two MakeClosure
+		// sites of the same $bound wrapper): its receiver must flow back to both
+		p.nsink++
+		fmt.Fprintf(&p.top, "func (s *S) show%d() { sink(%d, s.f) }\n", p.nsink, p.nsink)
+		a, b := c.pick2()
+		s1, s2, f1, f2 := c.fresh(), c.fresh(), c.fresh(), c.fresh()
+		c.emit("%s := &S{f: %s}", s1, a)
+		c.emit("%s := &S{f: %s}", s2, b)
+		c.emit("%s := %s.show%d", f1, s1, p.nsink)
+		c.emit("%s := %s.show%d", f2, s2, p.nsink)
+		c.emit("%s()", f1)
+		c.emit("%s()", f2)
+		c.emit("%s := %s + %s", v, a, b)
 		p.sinkOps[p.nsink] = append([]string(nil), c.ops...)
 	case "sinkhelper2":
 		// one helper holding the backtrace point, called from two sites with different data: without
